@@ -31,6 +31,7 @@ import (
 	"github.com/AdguardTeam/AdGuardDNS/internal/access"
 	"github.com/AdguardTeam/AdGuardDNS/internal/agd"
 	"github.com/AdguardTeam/AdGuardDNS/internal/agdcache"
+	"github.com/AdguardTeam/AdGuardDNS/internal/agdnet"
 	"github.com/AdguardTeam/AdGuardDNS/internal/agdpasswd"
 	"github.com/AdguardTeam/AdGuardDNS/internal/agdtime"
 	"github.com/AdguardTeam/AdGuardDNS/internal/dnsmsg"
@@ -483,63 +484,153 @@ func part3RealFilter(t *testing.T, r *vkit.Run) {
 }
 
 // ---------------------------------------------------------------------------
-// Part 4: the logging flags of a profile after a real profiledb file-cache
-// round trip (full synchronisation -> cache file -> new database instance that
-// starts from the cache, i.e. a restart).
+// Part 4: the logging flags / the attribution of a profile with the REAL
+// profile database (profiledb.Default) behind the stack, across incremental
+// synchronisations and a file-cache round trip (full synchronisation -> cache
+// file -> new database instance that starts from the cache, i.e. a restart).
+//
+// The backend is a small model: every profile has a modification time; a full
+// request (zero sync time) returns the snapshot and the snapshot time T0, an
+// incremental request returns the profiles modified after the sync time it is
+// GIVEN.  Some profiles change at T1 with T0 < T1 < local completion of the
+// full synchronisation (T0 = call time - 10 s, T1 = call time - 5 s, so the
+// order does not depend on scheduling): logging switched off / on, or the
+// profile deleted (it still lists its device).  At the quiescent point after
+// an instance's incremental synchronisation, queries must follow the backend's
+// latest state.
 // ---------------------------------------------------------------------------
 
-type flagStorage struct {
-	mu    sync.Mutex
-	profs []*agd.Profile
-	devs  []*agd.Device
-	calls int
+type p4Prof struct {
+	ID      string `json:"id"`
+	Dev     string `json:"device"`
+	Kind    string `json:"kind"` // static, changed-during-full-sync, deleted-during-full-sync
+	QL      bool   `json:"query_log_enabled_latest"`
+	IPLog   bool   `json:"ip_log_enabled_latest"`
+	Deleted bool   `json:"deleted_latest"`
+	WasQL   bool   `json:"query_log_enabled_in_snapshot"`
+	WasIP   bool   `json:"ip_log_enabled_in_snapshot"`
+	Dedic   string `json:"dedicated_ip"`
+
+	dedic netip.Addr
 }
 
-func (s *flagStorage) CreateAutoDevice(context.Context, *profiledb.StorageCreateAutoDeviceRequest) (*profiledb.StorageCreateAutoDeviceResponse, error) {
+type p4Item struct {
+	prof *agd.Profile
+	dev  *agd.Device
+	mod  time.Time
+}
+
+type p4Call struct {
+	Given time.Time `json:"sync_time_given"`
+	Full  bool      `json:"full"`
+	Profs int       `json:"profiles_returned"`
+}
+
+type p4Backend struct {
+	mu       sync.Mutex
+	items    map[string]*p4Item
+	order    []string
+	pending  []*p4Prof // changes that happen while the first full sync is in flight
+	snapshot time.Time
+	calls    []p4Call
+}
+
+func p4Profile(p *p4Prof, ql, ip, deleted bool) *agd.Profile {
+	return &agd.Profile{
+		FilterConfig: &filter.ConfigClient{Custom: &filter.ConfigCustom{ID: p.ID, UpdateTime: time.Unix(1_700_000_000, 0)},
+			Parental: &filter.ConfigParental{}, RuleList: &filter.ConfigRuleList{}, SafeBrowsing: &filter.ConfigSafeBrowsing{}},
+		Access: access.EmptyProfile{}, BlockingMode: &dnsmsg.BlockingModeNullIP{}, Ratelimiter: agd.GlobalRatelimiter{},
+		ID: agd.ProfileID(p.ID), DeviceIDs: []agd.DeviceID{agd.DeviceID(p.Dev)}, FilteredResponseTTL: 10 * time.Second,
+		FilteringEnabled: true, QueryLogEnabled: ql, IPLogEnabled: ip, Deleted: deleted,
+	}
+}
+
+func (b *p4Backend) CreateAutoDevice(context.Context, *profiledb.StorageCreateAutoDeviceRequest) (*profiledb.StorageCreateAutoDeviceResponse, error) {
 	return nil, fmt.Errorf("not supported")
 }
 
-func (s *flagStorage) Profiles(_ context.Context, _ *profiledb.StorageProfilesRequest) (*profiledb.StorageProfilesResponse, error) {
-	s.mu.Lock()
-	defer s.mu.Unlock()
-	s.calls++
-	return &profiledb.StorageProfilesResponse{SyncTime: time.Now(), Profiles: s.profs, Devices: s.devs}, nil
+func (b *p4Backend) Profiles(_ context.Context, req *profiledb.StorageProfilesRequest) (*profiledb.StorageProfilesResponse, error) {
+	b.mu.Lock()
+	defer b.mu.Unlock()
+	now := time.Now()
+	resp := &profiledb.StorageProfilesResponse{}
+	full := req.SyncTime.IsZero()
+	if full {
+		// Snapshot taken at T0; the pending changes happen at T1, after the
+		// snapshot but before the caller has finished its synchronisation.
+		t0, t1 := now.Add(-10*time.Second), now.Add(-5*time.Second)
+		if b.snapshot.IsZero() {
+			b.snapshot = t0
+		}
+		resp.SyncTime = t0
+		for _, id := range b.order {
+			it := b.items[id]
+			if !it.prof.Deleted {
+				resp.Profiles = append(resp.Profiles, it.prof)
+				resp.Devices = append(resp.Devices, it.dev)
+			}
+		}
+		for _, p := range b.pending {
+			it := b.items[p.ID]
+			b.items[p.ID] = &p4Item{prof: p4Profile(p, p.QL, p.IPLog, p.Deleted), dev: it.dev, mod: t1}
+		}
+		b.pending = nil
+	} else {
+		resp.SyncTime = now
+		for _, id := range b.order {
+			if it := b.items[id]; it.mod.After(req.SyncTime) {
+				resp.Profiles = append(resp.Profiles, it.prof)
+				resp.Devices = append(resp.Devices, it.dev)
+			}
+		}
+	}
+	b.calls = append(b.calls, p4Call{Given: req.SyncTime, Full: full, Profs: len(resp.Profiles)})
+	return resp, nil
 }
 
 func part4Restart(t *testing.T, r *vkit.Run) {
 	cache := filepath.Join(scratch(t), "c15-profiles.pb")
 	_ = os.Remove(cache)
-	type fp struct {
-		ID, Dev   string
-		QL, IPLog bool
+	be := &p4Backend{items: map[string]*p4Item{}}
+	var fps []*p4Prof
+	long := time.Now().Add(-24 * time.Hour)
+	add := func(p *p4Prof) {
+		p.dedic = netip.AddrFrom4([4]byte{192, 0, 2, byte(70 + len(fps))})
+		p.Dedic = p.dedic.String()
+		fps = append(fps, p)
+		be.order = append(be.order, p.ID)
+		be.items[p.ID] = &p4Item{prof: p4Profile(p, p.WasQL, p.WasIP, false), mod: long,
+			dev: &agd.Device{ID: agd.DeviceID(p.Dev), Name: agd.DeviceName("dev " + p.Dev), DedicatedIPs: []netip.Addr{p.dedic},
+				Auth: &agd.AuthSettings{PasswordHash: agdpasswd.AllowAuthenticator{}}, FilteringEnabled: true}}
+		if p.Kind != "static" {
+			be.pending = append(be.pending, p)
+		}
 	}
-	var fps []fp
-	full := &flagStorage{}
 	for _, ql := range []bool{true, false} {
 		for _, ip := range []bool{true, false} {
 			for k := 0; k < 3; k++ {
-				p := fp{ID: fmt.Sprintf("r%d%d%d", b2i(ql), b2i(ip), k), Dev: fmt.Sprintf("rd%d%d%d", b2i(ql), b2i(ip), k), QL: ql, IPLog: ip}
-				fps = append(fps, p)
-				full.profs = append(full.profs, &agd.Profile{
-					FilterConfig: &filter.ConfigClient{Custom: &filter.ConfigCustom{ID: p.ID, UpdateTime: time.Unix(1_700_000_000, 0)},
-						Parental: &filter.ConfigParental{}, RuleList: &filter.ConfigRuleList{}, SafeBrowsing: &filter.ConfigSafeBrowsing{}},
-					Access: access.EmptyProfile{}, BlockingMode: &dnsmsg.BlockingModeNullIP{}, Ratelimiter: agd.GlobalRatelimiter{},
-					ID: agd.ProfileID(p.ID), DeviceIDs: []agd.DeviceID{agd.DeviceID(p.Dev)}, FilteredResponseTTL: 10 * time.Second,
-					FilteringEnabled: true, QueryLogEnabled: ql, IPLogEnabled: ip,
-				})
-				full.devs = append(full.devs, &agd.Device{ID: agd.DeviceID(p.Dev), Name: agd.DeviceName("dev " + p.Dev),
-					Auth: &agd.AuthSettings{PasswordHash: agdpasswd.AllowAuthenticator{}}, FilteringEnabled: true})
+				add(&p4Prof{ID: fmt.Sprintf("r%d%d%d", b2i(ql), b2i(ip), k), Dev: fmt.Sprintf("rd%d%d%d", b2i(ql), b2i(ip), k),
+					Kind: "static", QL: ql, IPLog: ip, WasQL: ql, WasIP: ip})
 			}
 		}
 	}
+	for k := 0; k < 2; k++ {
+		const ch = "changed-during-full-sync"
+		add(&p4Prof{ID: fmt.Sprintf("rcq%d", k), Dev: fmt.Sprintf("rdcq%d", k), Kind: ch, WasQL: true, WasIP: true, QL: false, IPLog: true})
+		add(&p4Prof{ID: fmt.Sprintf("rci%d", k), Dev: fmt.Sprintf("rdci%d", k), Kind: ch, WasQL: true, WasIP: true, QL: true, IPLog: false})
+		add(&p4Prof{ID: fmt.Sprintf("rcn%d", k), Dev: fmt.Sprintf("rdcn%d", k), Kind: ch, WasQL: false, WasIP: false, QL: true, IPLog: true})
+		add(&p4Prof{ID: fmt.Sprintf("rdl%d", k), Dev: fmt.Sprintf("rddl%d", k), Kind: "deleted-during-full-sync", WasQL: true, WasIP: true,
+			QL: true, IPLog: true, Deleted: true})
+	}
+
 	ec := &realErrColl{}
-	newDB := func(st profiledb.Storage) (*profiledb.Default, error) {
-		return profiledb.New(&profiledb.Config{Logger: stack.Logger(), Storage: st, ErrColl: ec, Metrics: profiledb.EmptyMetrics{},
+	newDB := func() (*profiledb.Default, error) {
+		return profiledb.New(&profiledb.Config{Logger: stack.Logger(), Storage: be, ErrColl: ec, Metrics: profiledb.EmptyMetrics{},
 			CacheFilePath: cache, FullSyncIvl: 1000 * time.Hour, FullSyncRetryIvl: 1000 * time.Hour, ResponseSizeEstimate: datasize.KB})
 	}
 	ctx, cancel := context.WithTimeout(context.Background(), time.Minute)
 	defer cancel()
-	db1, err := newDB(full)
+	db1, err := newDB()
 	if err == nil {
 		err = db1.Refresh(ctx) // full synchronisation, writes the cache file
 	}
@@ -551,15 +642,32 @@ func part4Restart(t *testing.T, r *vkit.Run) {
 		r.Inconclusive("part 4: the full synchronisation wrote no cache file")
 		return
 	}
-	// "Restart": a new instance that starts from the cache; the backend reports
-	// no modified profiles afterwards.
-	unchanged := &flagStorage{}
-	db2, err := newDB(unchanged)
+	// "Restart": a new instance that starts from the cache.  Both instances then
+	// run one incremental synchronisation.
+	db2, err := newDB()
+	if err == nil {
+		err = db1.Refresh(ctx)
+	}
 	if err == nil {
 		err = db2.Refresh(ctx)
 	}
 	if err != nil {
-		r.Inconclusive("part 4: second database: " + err.Error())
+		r.Inconclusive("part 4: incremental synchronisation: " + err.Error())
+		return
+	}
+	be.mu.Lock()
+	calls := append([]p4Call(nil), be.calls...)
+	be.mu.Unlock()
+	nFull := 0
+	for _, c := range calls {
+		if c.Full {
+			nFull++
+		}
+	}
+	r.Bucket("p4.backend_full_syncs", int64(nFull))
+	r.Bucket("p4.backend_incremental_syncs", int64(len(calls)-nFull))
+	if nFull != 1 || len(calls) != 3 {
+		r.Inconclusive(fmt.Sprintf("part 4: expected one full and two incremental synchronisations, the backend saw %s", vkit.JSON(calls)))
 		return
 	}
 
@@ -569,8 +677,11 @@ func part4Restart(t *testing.T, r *vkit.Run) {
 	}{{"before-restart", db1}, {"after-restart", db2}} {
 		dot := stack.NewServer("rs-dot", agd.ProtoDoT, netip.MustParseAddrPort("192.0.2.11:853"), false)
 		doh := stack.NewServer("rs-doh", agd.ProtoDoH, netip.MustParseAddrPort("192.0.2.11:443"), false)
+		dnsif := stack.NewServer("rs-dnsif", agd.ProtoDNS, netip.MustParseAddrPort("192.0.2.64:53"), false)
+		dnsif.SetBindData([]*agd.ServerBindData{{PrefixAddr: &agdnet.PrefixNetAddr{
+			Prefix: netip.MustParsePrefix("192.0.2.64/26"), Net: "udp", Port: 53}}})
 		grp := &agd.ServerGroup{DDR: stack.NewDDR(false), DeviceDomains: []string{devDomain}, Name: "grs", FilteringGroup: "fgrs",
-			ProfilesEnabled: true, Servers: []*agd.Server{dot, doh}}
+			ProfilesEnabled: true, Servers: []*agd.Server{dot, doh, dnsif}}
 		fg := &agd.FilteringGroup{ID: "fgrs", FilterConfig: &filter.ConfigGroup{Parental: &filter.ConfigParental{},
 			RuleList: &filter.ConfigRuleList{}, SafeBrowsing: &filter.ConfigSafeBrowsing{}}}
 		st, serr := stack.New(&stack.Options{FilterStorage: &scriptStorage{}, ProfileDB: ph.db, Upstream: upstream,
@@ -580,76 +691,107 @@ func part4Restart(t *testing.T, r *vkit.Run) {
 			return
 		}
 		n := 0
-		for rep := 0; rep < r.N(8, 32); rep++ {
+		for rep := 0; rep < r.N(4, 16); rep++ {
 			for _, p := range fps {
-				n++
-				rng := r.Rand("restart-"+ph.name, n)
-				srv := []*agd.Server{dot, doh}[rng.IntN(2)]
-				name := fmt.Sprintf("q%05d.%s.restart.c15.example.", n, ph.name)
-				remote := netip.AddrPortFrom(netip.AddrFrom4([4]byte{203, 0, 113, byte(1 + rng.IntN(250))}), uint16(1024+rng.IntN(60000)))
-				rq := &stack.Request{Server: srv, Group: grp, Msg: stack.NewQuery(uint16(rng.IntN(65536)), name, dns.TypeA, dns.ClassINET),
-					Remote: remote, Local: netip.MustParseAddrPort("192.0.2.11:853")}
-				if srv == dot {
-					rq.TLSServerName = p.Dev + "." + devDomain
-				} else {
-					rq.URL = &url.URL{Path: "/dns-query/" + p.Dev}
-				}
-				out := st.Serve(rq)
-				logs, bills := out.Trace.QueryLog, out.Trace.Bill
-				r.Eval(fmt.Sprintf("p4|%s|ql%d|ip%d", ph.name, b2i(p.QL), b2i(p.IPLog)), ph.name == "after-restart" && !(p.QL && p.IPLog))
-				r.Bucket("p4."+ph.name+".cases", 1)
-				ev := []entryView{}
-				for _, e := range logs {
-					ev = append(ev, viewEntry(e))
-				}
-				w := map[string]any{"phase": ph.name, "profile_as_synchronised": map[string]any{"id": p.ID, "device": p.Dev,
-					"query_log_enabled": p.QL, "ip_log_enabled": p.IPLog}, "server": string(srv.Name), "name": name, "remote": remote.String(),
-					"log_entries": ev, "bill_records": len(bills), "responses": len(out.Responses), "serve_error": fmt.Sprint(out.Err)}
-				if out.Panic != nil || len(out.Responses) == 0 || len(bills) != 1 {
-					// Not attributed / not served: the model's premise does not hold.
-					r.Bucket("p4.not_attributed_or_unanswered", 1)
-					st.Forget(out)
-					continue
-				}
-				key := "restart:" + ph.name + ":"
-				switch {
-				case !p.QL && len(logs) > 0:
-					r.Violation(key+"qlog-disabled-logged", "a query of a profile synchronised with query logging disabled produced an entry", w)
-				case p.QL && len(logs) == 0:
-					r.Violation(key+"missing-entry", "a query of a profile synchronised with query logging enabled produced no entry", w)
-				}
-				if !p.QL {
-					r.Bucket("p4."+ph.name+".qlog_suppressed", 1)
-				}
-				for _, e := range logs {
-					hasIP := e.RemoteIP != netip.Addr{}
+				for _, mode := range []string{"dot-sni", "doh-path", "dns-dedicated"} {
+					n++
+					rng := r.Rand("restart-"+ph.name, n)
+					name := fmt.Sprintf("q%05d.%s.restart.c15.example.", n, ph.name)
+					remote := netip.AddrPortFrom(netip.AddrFrom4([4]byte{203, 0, 113, byte(1 + rng.IntN(250))}), uint16(1024+rng.IntN(60000)))
+					rq := &stack.Request{Group: grp, Msg: stack.NewQuery(uint16(rng.IntN(65536)), name, dns.TypeA, dns.ClassINET), Remote: remote}
+					switch mode {
+					case "dot-sni":
+						rq.Server, rq.Local, rq.TLSServerName = dot, netip.MustParseAddrPort("192.0.2.11:853"), p.Dev+"."+devDomain
+					case "doh-path":
+						rq.Server, rq.Local, rq.URL = doh, netip.MustParseAddrPort("192.0.2.11:443"), &url.URL{Path: "/dns-query/" + p.Dev}
+					default:
+						rq.Server, rq.Local = dnsif, netip.AddrPortFrom(p.dedic, 53)
+					}
+					out := st.Serve(rq)
+					logs, bills := out.Trace.QueryLog, out.Trace.Bill
+					r.Eval(fmt.Sprintf("p4|%s|%s|%s|ql%d|ip%d|del%d", ph.name, p.Kind, mode, b2i(p.QL), b2i(p.IPLog), b2i(p.Deleted)),
+						p.Kind != "static" || (ph.name == "after-restart" && !(p.QL && p.IPLog)))
+					r.Bucket("p4."+ph.name+".cases", 1)
+					ev := []entryView{}
+					for _, e := range logs {
+						ev = append(ev, viewEntry(e))
+					}
+					w := map[string]any{"phase": ph.name, "profile_on_backend": p, "identified_by": mode, "server": string(rq.Server.Name),
+						"name": name, "remote": remote.String(), "local": rq.Local.String(), "log_entries": ev, "bill_records": len(bills),
+						"responses": len(out.Responses), "serve_error": fmt.Sprint(out.Err), "backend_calls": calls}
+					key := "restart:" + ph.name + ":"
+					sfx := ""
+					if p.Kind != "static" {
+						sfx = ":" + p.Kind
+					}
+					if out.Panic != nil || len(out.Responses) == 0 {
+						r.Bucket("p4.not_attributed_or_unanswered", 1)
+						st.Forget(out)
+						continue
+					}
+					if p.Deleted {
+						r.Bucket("p4."+ph.name+".deleted."+mode, 1)
+						if len(logs) > 0 {
+							r.Violation(key+"deleted-profile-logged:"+mode, "a query identified with a device of a deleted profile produced a query-log entry", w)
+						}
+						if len(bills) > 0 {
+							r.Violation(key+"deleted-profile-billed:"+mode, "a query identified with a device of a deleted profile produced a billing record", w)
+						}
+						st.Forget(out)
+						continue
+					}
+					if len(bills) != 1 {
+						// Not attributed: the model's premise does not hold.
+						r.Bucket("p4.not_attributed_or_unanswered", 1)
+						st.Forget(out)
+						continue
+					}
 					switch {
-					case hasIP && !p.IPLog:
-						r.Violation(key+"ip-logged-without-optin", "entry of a profile synchronised with IP logging disabled contains the client address", w)
-					case !hasIP && p.IPLog:
-						r.Violation(key+"ip-missing", "entry of a profile synchronised with IP logging enabled lacks the client address", w)
-					case hasIP && e.RemoteIP.Unmap() != remote.Addr():
-						r.Violation(key+"entry-field:remote-ip", "entry carries another client address", w)
+					case !p.QL && len(logs) > 0:
+						r.Violation(key+"qlog-disabled-logged"+sfx, "a query of a profile whose latest synchronised state has query logging disabled produced an entry", w)
+					case p.QL && len(logs) == 0:
+						r.Violation(key+"missing-entry"+sfx, "a query of a profile whose latest synchronised state has query logging enabled produced no entry", w)
 					}
-					if string(e.ProfileID) != p.ID || string(e.DeviceID) != p.Dev {
-						r.Violation(key+"entry-field:profile-device", "entry names another profile / device", w)
+					if !p.QL {
+						r.Bucket("p4."+ph.name+".qlog_suppressed", 1)
+						if p.Kind != "static" {
+							r.Bucket("p4."+ph.name+".changed.qlog_suppressed", 1)
+						}
 					}
-					if p.IPLog {
-						r.Bucket("p4."+ph.name+".ip_logged", 1)
-					} else {
-						r.Bucket("p4."+ph.name+".ip_suppressed", 1)
+					for _, e := range logs {
+						hasIP := e.RemoteIP != netip.Addr{}
+						switch {
+						case hasIP && !p.IPLog:
+							r.Violation(key+"ip-logged-without-optin"+sfx, "entry of a profile whose latest synchronised state has IP logging disabled contains the client address", w)
+						case !hasIP && p.IPLog:
+							r.Violation(key+"ip-missing"+sfx, "entry of a profile whose latest synchronised state has IP logging enabled lacks the client address", w)
+						case hasIP && e.RemoteIP.Unmap() != remote.Addr():
+							r.Violation(key+"entry-field:remote-ip", "entry carries another client address", w)
+						}
+						if string(e.ProfileID) != p.ID || string(e.DeviceID) != p.Dev {
+							r.Violation(key+"entry-field:profile-device", "entry names another profile / device", w)
+						}
+						if p.IPLog {
+							r.Bucket("p4."+ph.name+".ip_logged", 1)
+						} else {
+							r.Bucket("p4."+ph.name+".ip_suppressed", 1)
+							if p.Kind != "static" {
+								r.Bucket("p4."+ph.name+".changed.ip_suppressed", 1)
+							}
+						}
 					}
+					st.Forget(out)
 				}
-				st.Forget(out)
 			}
 		}
 	}
 	if n := r.BucketGet("p4.not_attributed_or_unanswered"); n > 0 {
 		r.Inconclusive(fmt.Sprintf("part 4: %d request(s) were not attributed to their profile or not answered", n))
 	}
-	unchanged.mu.Lock()
-	calls := unchanged.calls
-	unchanged.mu.Unlock()
-	r.Bucket("p4.post_restart_sync_calls", int64(calls))
+	ec.mu.Lock()
+	if len(ec.errs) > 0 {
+		r.Inconclusive("part 4: the profile database reported errors, first: " + ec.errs[0])
+	}
+	ec.mu.Unlock()
 	_ = os.Remove(cache)
 }
